@@ -2,6 +2,7 @@ package rules
 
 import (
 	"fmt"
+	"go/constant"
 	"go/types"
 	"sort"
 	"strings"
@@ -278,3 +279,20 @@ func isParam(s *px.Sym, p *ssa.Parameter) bool {
 }
 
 func sortStrings(s []string) { sort.Strings(s) }
+
+// numEq / numLess compare numeric constants at float64 precision (typed constants
+// are rounded by the type checker, untyped ones are exact).
+func numEq(a, b constant.Value) bool {
+	if a == nil || b == nil {
+		return false
+	}
+	fa, _ := constant.Float64Val(constant.ToFloat(a))
+	fb, _ := constant.Float64Val(constant.ToFloat(b))
+	return fa == fb
+}
+
+func numLess(a, b constant.Value) bool {
+	fa, _ := constant.Float64Val(constant.ToFloat(a))
+	fb, _ := constant.Float64Val(constant.ToFloat(b))
+	return fa < fb
+}
